@@ -101,8 +101,10 @@ func (s *expStepBStructure) verifyProofStructure(proof ExpStepBProof) bool {
 func (s *expStepBStructure) commitmentsFromProof(g zkproof.Group, list []*big.Int, challenge *big.Int, bases zkproof.BaseLookup, proof ExpStepBProof) []*big.Int {
 	// The multiplication shown in this branch is about the value that the surrounding proof is
 	// committed to under mulname. The copy of that commitment sent along here only serves to carry
-	// responses for this branch's own challenge: the commitment itself is taken from the
-	// surrounding proof, so that a copy committing to another value opens nothing.
+	// responses for this branch's own challenge: it goes into the challenge as it was received, but
+	// the opening is checked against the commitment of the surrounding proof, so that a copy
+	// committing to another value opens nothing.
+	list = append(list, proof.Mul.Commit)
 	if outer := bases.Base(s.mulname); outer != nil {
 		proof.Mul.Commit = outer
 	}
@@ -113,7 +115,8 @@ func (s *expStepBStructure) commitmentsFromProof(g zkproof.Group, list []*big.In
 	proofs := zkproof.NewProofMerge(&proof.Bit, &proof.Mul)
 
 	// Generate commitments
-	list = s.mul.commitmentsFromProof(g, list, challenge, proof.Mul)
+	mulBases := zkproof.NewBaseMerge(&proof.Mul, &g)
+	list = s.mul.representation.CommitmentsFromProof(g, list, challenge, &mulBases, &proof.Mul)
 	list = s.bitRep.CommitmentsFromProof(g, list, challenge, bases, &proofs)
 	list = s.prePostMul.commitmentsFromProof(g, list, challenge, bases, &proofs, proof.MultiplicationProof)
 
